@@ -288,14 +288,20 @@ const maxGen = 2
 // redundantNest reports terms of the shape snapN_key(snapN_idx(...)) / snapN_idx(snapN_key(...)):
 // the snapshot axioms make them equal to their argument, so matching on them only feeds a matching loop.
 func redundantNest(t *sx.T) bool {
-	// skey(S, P, sidx(S, P, k)) and sidx(S, P, skey(S, P, j))
-	if len(t.L) == 4 && (t.Head() == "skey" || t.Head() == "sidx") {
+	// skey(S, P, sidx(S, P, skey(S, P, ...))) and deeper: the snapshot axioms make the outer two applications
+	// cancel, so matching on them only feeds a matching loop. One level, skey(S, P, sidx(S, P, k)), is needed to
+	// instantiate loop invariants at the position of a key.
+	depth := 0
+	for len(t.L) == 4 && (t.Head() == "skey" || t.Head() == "sidx") {
 		in := t.L[3]
-		if len(in.L) == 4 && in.Head() != t.Head() && (in.Head() == "skey" || in.Head() == "sidx") {
-			return sx.Eq(in.L[1], t.L[1]) && sx.Eq(in.L[2], t.L[2])
+		if len(in.L) == 4 && in.Head() != t.Head() && (in.Head() == "skey" || in.Head() == "sidx") && sx.Eq(in.L[1], t.L[1]) && sx.Eq(in.L[2], t.L[2]) {
+			depth++
+			t = in
+			continue
 		}
+		break
 	}
-	return false
+	return depth >= 2
 }
 
 func containsRedundantNest(t *sx.T) bool {
